@@ -213,6 +213,26 @@ func numericLattice(emit func(caseSpec), threeEntryPL map[string]bool) {
 	}
 }
 
+// hugeLattice: well-formed dictionaries whose file lengths need more than 32 bits (piece length 1 MiB, so a
+// few thousand hashes suffice). Arithmetic that narrows to 32 bits loses exactly these.
+func hugeLattice(emit func(caseSpec)) {
+	const pl = 1 << 20
+	vecs := [][]int64{{1 << 32}, {1<<32 + 1}, {1<<32 - 1, 2}, {5, 1 << 32}, {1<<33 + 7}, {1 << 31, 1 << 31, 1}}
+	for _, v := range vecs {
+		var total int64
+		var files []any
+		var names []string
+		for i, l := range v {
+			total += l
+			files = append(files, refcodec.D("length", l, "path", []string{fmt.Sprintf("f%d", i)}))
+			names = append(names, strconv.FormatInt(l, 10))
+		}
+		n := int((total + pl - 1) / pl)
+		d := dictOf([]tok{{"files", files}, {"name", "t"}, {"piece length", int64(pl)}, {"pieces", piecesOf(20 * n)}}, false)
+		emit(caseSpec{Class: "num.huge", Desc: fmt.Sprintf("multi pl=2^20 pieces=%d files=[%s] (lengths beyond 32 bits)", n, strings.Join(names, ",")), Info: lit(refcodec.Benc(d))})
+	}
+}
+
 // ---- shape axes: one-dimensional deviations from accepted bases
 
 const basePL = 16384
